@@ -91,6 +91,9 @@ def shapes(tier):
         out.append({"mode": "inmem", "N": N, "n_lin": 1, "kmax": "sym", "neginf": ninf})
         out.append({"mode": "file", "N": N, "n_lin": 1, "kmax": "none", "n_batches": 2, "randomize": False, "n_prior": None,
                     "src": "filename" if N % 2 else "object", "pool": 1, "neginf": ninf})
+    # a tiny random subset of a large library (size relations such as 100 * n_prior_samples <= n_total)
+    out.append({"mode": "file", "N": 200 if tier == "quick" else 300, "n_lin": 1, "kmax": "none", "n_batches": None, "randomize": True, "n_prior": 2,
+                "src": "filename", "pool": 1})
     # file-path options given together with in_memory=True (they must not change which rows are evaluated / kept), and the
     # same options on the public file path
     for N in ([3] if tier == "quick" else [3, 4]):
@@ -527,6 +530,13 @@ def _replay_once(cand, focus, shift):
             self.choice_calls += 1
             return np.array(idx[:int(size)], dtype=int)
 
+        def integers(self, low, high=None, size=None, **kw):
+            # draws with replacement: serve a repeated row number, which such a draw may produce
+            self.integers_calls = getattr(self, "integers_calls", 0) + 1
+            k = 1 if size is None else int(size)
+            vals = np.array([idx[0] if idx else 0] * k, dtype=int)
+            return vals if size is not None else int(vals[0])
+
         def permutation(self, x):
             n = x if isinstance(x, (int, np.integer)) else len(x)
             full = np.array((idx + [i for i in range(n) if i not in idx])[:n], dtype=int)
@@ -624,6 +634,10 @@ def _replay_once(cand, focus, shift):
         bad = []
         if before != after:
             bad.append("user file changed")
+        ev_rows = [tuple(np.round(r, 12)) for r in FakeHelper.evaluated]
+        if randomized and len(set(ev_rows)) < len(ev_rows):
+            bad.append("the random subset contains the same library row more than once (%d evaluations, %d distinct rows)%s" % (
+                len(ev_rows), len(set(ev_rows)), "; rows drawn with rng.integers" if getattr(rng, "integers_calls", 0) else ""))
         if not isinstance(out, JokerSamples):
             return {"reproduced": True, "detail": "returned %r instead of JokerSamples" % type(out)}
         order = idx[:n_eval] if randomized else list(range(n_eval))
